@@ -885,6 +885,8 @@ pub fn parent_main(def: &PropDef, ctx: &Ctx, cfg: &ParentCfg) -> Outcome {
                 notes.push(format!("witness of open finding {} still fails", f.id));
             }
             ("open", Some(false)) => {
+                // (schedule-dependent findings do not fail in every replay; the finding stays listed)
+                println!("KNOWN-FINDING: property={} {} [{}] (its witness did not fail in this run)", f.property, f.what, f.id);
                 notes.push(format!("witness of open finding {} passes now", f.id));
             }
             ("open", None) => {
